@@ -13,24 +13,29 @@ import (
 )
 
 func basicType() parsec.Parser {
+	// match complete words only: a type reference can start with
+	// the name of a basic type (ex: a structure called "strategy").
+	word := func(name string) parsec.Parser {
+		return parsec.Token(name+`\b`, "")
+	}
 	return parsec.OrdChoice(nodifyBasicType,
-		parsec.Atom("int8", ""),
-		parsec.Atom("uint8", ""),
-		parsec.Atom("int16", ""),
-		parsec.Atom("uint16", ""),
-		parsec.Atom("int32", ""),
-		parsec.Atom("uint32", ""),
-		parsec.Atom("int64", ""),
-		parsec.Atom("uint64", ""),
-		parsec.Atom("float32", ""),
-		parsec.Atom("float64", ""),
-		parsec.Atom("int64", ""),
-		parsec.Atom("uint64", ""),
-		parsec.Atom("bool", ""),
-		parsec.Atom("str", ""),
-		parsec.Atom("obj", ""),
-		parsec.Atom("any", ""),
-		parsec.Atom("unknown", ""))
+		word("int8"),
+		word("uint8"),
+		word("int16"),
+		word("uint16"),
+		word("int32"),
+		word("uint32"),
+		word("int64"),
+		word("uint64"),
+		word("float32"),
+		word("float64"),
+		word("int64"),
+		word("uint64"),
+		word("bool"),
+		word("str"),
+		word("obj"),
+		word("any"),
+		word("unknown"))
 }
 
 // Context catures the current state of the parser.
